@@ -48,8 +48,8 @@ class Bounded:
                 self.samples.append(key)
             self.cases.add(k)
 
-    def count(self, contract):
-        self.contract_evals[contract] = self.contract_evals.get(contract, 0) + 1
+    def count(self, contract, n=1):
+        self.contract_evals[contract] = self.contract_evals.get(contract, 0) + n
 
     def fail(self, name, inp, detail):
         # keep at most 30 witnesses per obligation name (every distinct failing obligation stays visible)
@@ -83,12 +83,36 @@ class Bounded:
         )
 
 
+def robust_central(ev, h=1e-3, rtol=1e-6, atol=1e-7, levels=5):
+    """4th-order central difference of the scalar function ev(delta) at 0, with a smoothness certificate.
+
+    The estimate is accepted only when two consecutive step sizes (h, h/4, h/16, ...) agree: for a smooth function they agree to
+    ~1e-9, whereas a kink (a near-tie of max/min, the edge of a clip, a sign change under abs) closer than 2h makes the estimate
+    depend on h.  Returns (value, True), or (last estimate, False) when no pair agrees -- the point is then too close to a
+    non-differentiable point for the finite-difference *oracle*, which says nothing about the code under test: such an element is
+    not compared (and counted as skipped by the caller)."""
+
+    def est(hh):
+        return (-ev(2 * hh) + 8 * ev(hh) - 8 * ev(-hh) + ev(-2 * hh)) / (12 * hh)
+
+    prev = est(h)
+    for _ in range(levels - 1):
+        h = h / 4
+        cur = est(h)
+        if cur == prev or abs(cur - prev) <= atol + rtol * max(abs(cur), abs(prev)) or (cur != cur and prev != prev):
+            return cur, True
+        prev = cur
+    return prev, False
+
+
 def num_vjp(f, xs, i, g, h=1e-3):
-    """sum(g * f(xs)) differentiated w.r.t. xs[i], 4th-order central differences (float64)."""
+    """sum(g * f(xs)) differentiated w.r.t. xs[i], 4th-order central differences (float64) with a smoothness certificate:
+    elements where the finite-difference oracle is unreliable are masked (numpy.ma) and not compared by close()."""
     xs = [np.array(x, dtype=np.float64) if isinstance(x, np.ndarray) and x.dtype.kind == "f" else x for x in xs]
     xs[i] = np.asarray(xs[i], dtype=np.float64)
     x = xs[i]
     out = np.zeros(x.shape, dtype=np.float64)
+    bad = np.zeros(x.shape, dtype=bool)
     it = np.ndindex(*x.shape) if x.ndim else [()]
 
     def ev(delta, idx):
@@ -99,15 +123,23 @@ def num_vjp(f, xs, i, g, h=1e-3):
         return float(np.sum(np.asarray(g, dtype=np.float64) * np.asarray(f(*ys), dtype=np.float64)))
 
     for idx in it:
-        out[idx] = (-ev(2 * h, idx) + 8 * ev(h, idx) - 8 * ev(-h, idx) + ev(-2 * h, idx)) / (12 * h)
-    return out
+        out[idx], ok = robust_central(lambda d, idx=idx: ev(d, idx), h)
+        bad[idx] = not ok
+    return np.ma.masked_array(out, mask=bad) if bad.any() else out
 
 
 def close(a, b, rtol=1e-6, atol=1e-7):
-    a = np.asarray(a, dtype=np.float64)
-    b = np.asarray(b, dtype=np.float64)
+    mask = None
+    for q in (a, b):
+        if isinstance(q, np.ma.MaskedArray) and q.mask is not np.ma.nomask:
+            mask = np.ma.getmaskarray(q) if mask is None else (mask | np.ma.getmaskarray(q))
+    a = np.asarray(np.ma.getdata(a), dtype=np.float64)
+    b = np.asarray(np.ma.getdata(b), dtype=np.float64)
     if a.shape != b.shape:
         return False
+    if mask is not None:
+        keep = ~np.broadcast_to(mask, a.shape)
+        a, b = a[keep], b[keep]
     return bool(np.allclose(a, b, rtol=rtol, atol=atol, equal_nan=True))
 
 
